@@ -19,12 +19,14 @@ HARNESS_BIN = os.path.join(BUILD, "target-harness", "release", "plsverif")
 SERVER_TARGET = os.path.join(BUILD, "target-server")
 SERVER_BIN = os.path.join(SERVER_TARGET, "release", "pytest-language-server")
 REPO = "/repo"
+ALT_SUFFIX = ""
 # Seeded-fault self-test only (tools/seedrun.py): run the same checks against a scratch copy of the
 # repository outside /repo and /verif, with separate build and evidence directories.  The registered
 # commands never set these variables and always build from /repo.
 if os.environ.get("VERIF_ALT_REPO"):
     REPO = os.environ["VERIF_ALT_REPO"]
     _sfx = os.environ.get("VERIF_ALT_TAG", "alt")
+    ALT_SUFFIX = "-" + _sfx
     EVID = os.path.join(BUILD, "evidence-" + _sfx)
     REPLAYS = os.path.join(EVID, "replays")
     SERVER_TARGET = os.path.join(BUILD, "target-server-" + _sfx)
